@@ -1,25 +1,19 @@
 #!/bin/sh
-# selftest_mutants.sh [name-prefix]: applies every seeded change under /verif/seeded to /repo in turn,
-# runs the quick check(s) named in its meta.json "caught_by" (first token per entry), expects exit 1,
-# and reverts. /repo must be clean. Prints one line per (change, check).
+# selftest_mutants.sh [name-prefix]: applies every seeded change under /verif/seeded to /repo in turn
+# (through tool/try_mut.sh: under the advisory tree lock, reverted as soon as the check has copied
+# the tree), runs the quick check(s) named in its meta.json "caught_by", expects exit 1.
+# Prints one line per (change, check).
 cd /verif
-git -C /repo diff --quiet || { echo "/repo has uncommitted changes"; exit 2; }
 for d in seeded/${1:-}*/; do
   name=$(basename $d)
   checks=$(python3 -c "
 import json,re,sys
 m=json.load(open('$d/meta.json'))
 print(' '.join(dict.fromkeys(re.findall(r'\bC\d\d\b', m['caught_by']))))")
-  git -C /repo apply /verif/$d/patch.diff 2>/dev/null || { echo "$name APPLY-FAILED"; continue; }
-  for c in $checks; do
-    env $(python3 -c "
+  envs=$(python3 -c "
 import json
 m=json.load(open('$d/meta.json'))
-print(m.get('env',''))") VERIF_BUDGET_SEC=${BUDGET:-20} ./bin/verifctl check $c --tier quick > /tmp/mut.$$ 2>&1
-    rc=$?
-    cls=$(grep -m1 "class=" /tmp/mut.$$ | sed 's/^ *//' | cut -c1-100)
-    echo "$name $c exit=$rc $cls"
-  done
-  git -C /repo checkout -- .
+print(m.get('env',''))")
+  env $envs BUDGET=${BUDGET:-20} ./tool/try_mut.sh $d $checks
 done
-rm -f /tmp/mut.$$; rm -rf /verif/replays/C*
+rm -rf /verif/replays
